@@ -131,7 +131,16 @@ def rule_skip_guard(ctx):
         r.check(ok, "backup_copy_file/backup-iff-md5-differs", db.loc(g, o),
                 "the backup write is not controlled by memcmp(md5_str, md5_str_in, 32) != 0; controlling conditions: %s" % conds)
         # nothing else may skip the backup: the only controlling conditions are the memcmp test (and logging)
-        others = [c for c in conds if "memcmp" not in c[0] and "log_sev_on" not in c[0]]
+        # ... a guard whose other edge cannot reach a return (it ends in exit()) skips nothing: the run stops there
+        def stops(cn, pol):
+            for b, blk in g.blocks.items():
+                t = blk.get("term")
+                if t and t.get("lc", t.get("c")) is not None and len(g.succ[b]) == 2 and expr_str(g, t.get("lc", t.get("c"))) == cn:
+                    other = g.succ[b][1 if pol else 0]
+                    if other >= 0 and g.paths_avoiding(other, lambda n: n["k"] == "ret", lambda n: is_call(n, "exit"), start_is_node=False) is None:
+                        return True
+            return False
+        others = [c for c in conds if "memcmp" not in c[0] and "log_sev_on" not in c[0] and not stops(c[0], c[1])]
         r.check(not others, "backup_copy_file/no-other-skip", db.loc(g, o), "the backup write is also controlled by %s" % others)
     # the matching edge returns EX_OK (0) without any write
     for b, blk in g.blocks.items():
@@ -158,6 +167,65 @@ def rule_skip_guard(ctx):
         rhs = expr_str(g, s["a"][1])
         r.check(rhs in ("0", "unc_tolower(buffer[i])", "buffer[i]"), "backup_copy_file/md5_str_in-source", db.loc(g, s), "md5_str_in receives `%s`" % rhs)
     r.floor(8)
+
+
+def rule_names_not_truncated(ctx):
+    """the backup, the md5 file and the output file are *named* by snprintf into fixed buffers; a truncated name is the name of
+    another file - of the other backup file, or of the source itself"""
+    db = ctx.db
+    r = ctx.rule("names-not-truncated", "every snprintf that builds a file name in backup_copy_file, backup_create_md5_file and "
+                 "make_output_filename either stores its result and is followed, before the function's normal return, by a test of "
+                 "that result against the size whose failing edge cannot return normally, or is dominated by a length test "
+                 "(strlen(..) + strlen(..) >= sizeof(buffer)) whose failing edge cannot reach it")
+    n = 0
+    for qn, file in (("backup_copy_file", BK), ("backup_create_md5_file", BK), ("make_output_filename", "src/uncrustify.cpp")):
+        g = db.fn(qn, file=file)
+        sns = [x for x in g.all_nodes() if is_call(x, "snprintf") and x.get("a") and len(x["a"]) >= 3
+               and "%s" in ((g.nodes.get(x["a"][2]) or {}).get("v") or "") and expr_str(g, x["a"][0]) not in ("md5_str",)]
+        r.require(sns, "%s: no snprintf that builds a name" % qn)
+        for x in sns:
+            n += 1
+            r.seen()
+            dest = expr_str(g, x["a"][0])
+            conds = [(expr_str(g, cn), pol) for cn, pol in g.guard_conds(g.nblock[x["i"]]) if cn is not None]
+            pre = any(pol is False and "strlen(" in c and ">= sizeof(" in c for c, pol in conds)
+            post = False
+            # result variable
+            ps = g.parents().get(x["i"]) or []
+            var = None
+            for pi in ps:
+                pn = g.nodes[pi]
+                if pn["k"] == "asg":
+                    var = expr_str(g, pn["a"][0])
+                elif pn["k"] == "decl":
+                    vs = [v["n"] for v in pn["vars"] if v.get("init") == x["i"]]
+                    var = vs[0] if vs else var
+            if var is not None:
+                for b, blk in g.blocks.items():
+                    t = blk.get("term")
+                    c = t.get("lc", t.get("c")) if t else None
+                    if c is None or len(g.succ[b]) != 2:
+                        continue
+                    cs = expr_str(g, c)
+                    if re.search(r"\b%s\b\)? >= " % re.escape(var), cs):
+                        def stop(y):
+                            return is_call(y, "exit") or is_call(y, "output_name_too_long")
+                        bad_edge = g.succ[b][0]
+                        stops = bad_edge >= 0 and g.paths_avoiding(bad_edge, lambda y: y["k"] == "ret", stop, start_is_node=False) is None
+                        # every path from the call to a return passes this test (or stops)
+                        through = g.paths_avoiding(x["i"], lambda y: y["k"] == "ret", lambda y, b=b: stop(y) or g.nblock[y["i"]] == b) is None
+                        if stops and through:
+                            post = True
+            r.check(pre or post, "%s/snprintf(%s)/%s" % (qn, dest, (g.nodes.get(x["a"][2]) or {}).get("v")), db.loc(g, x),
+                    "the name built by `%s` may be truncated and is used all the same: a path close to the buffer size names another file "
+                    "(dominating facts: %s; result variable: %s)" % (expr_str(g, x["i"])[:70], [c for c, p in conds if "strlen" in c], var))
+    # the helper that stops the run must not return
+    h = db.fns("output_name_too_long")
+    for g in h:
+        r.check(not [y for y in g.all_nodes() if y["k"] == "ret"] and db.calls_in(g, "exit"), "output_name_too_long/stops", db.loc(g, g.l0),
+                "output_name_too_long() can return")
+    r.require(n >= 5, "only %d name-building snprintf calls found" % n)
+    r.floor(5)
 
 
 def rule_md5_format_agreement(ctx):
@@ -253,4 +321,4 @@ def rule_inplace_name(ctx):
     c13.rule_inplace_name(ctx)
 
 
-RULES = [rule_md5_after_install, rule_skip_guard, rule_md5_format_agreement, rule_md5_block_invariant, rule_inplace_name]
+RULES = [rule_md5_after_install, rule_skip_guard, rule_names_not_truncated, rule_md5_format_agreement, rule_md5_block_invariant, rule_inplace_name]
